@@ -121,7 +121,7 @@ Print Assumptions corrected_lambda_close_to_drawn.
 (* ---------- what is rejected ---------- *)
 (* every exception is the explicit rejection of an input outside the domain: an odd batch under flip, labels that are
    neither rows nor scalars in [0,1], images that are not (C, H, W) where a box is needed, integer images where a
-   mixup is needed, 0-d samples, no image item (Proofs.explained; EDraw / EItem are artefacts of the model) *)
+   mixup is needed, 0-d samples, no image item, a multi-view image item (Proofs.explained; EDraw / EItem are artefacts of the model) *)
 Theorem errors_explained : forall c hv Y batch ctx tr e,
   collate_batch c hv Y batch ctx tr = Err e -> explained c Y e.
 Proof. exact errors_explained_l. Qed.
@@ -136,7 +136,7 @@ Print Assumptions in_domain_not_rejected.
 (* ---------- non-vacuity: the premises are satisfiable and the interesting branches are reached ---------- *)
 Definition c_ex : cfg := {| bsz := 3; img_h := 4; img_w := 6; mixup_p := 1 # 2; cutmix_p := 1 # 2; total_p := 1;
   mixup_alpha := Some (4 # 5); cutmix_alpha := Some 1%Q; apply_mode := PerSample; lamb_mode := PerSample;
-  shuf := Random; tokens := [TIndex; TX; TClass]; x_rank := 3; x_float := true; lab_ndim := 2 |}.
+  shuf := Random; tokens := [TIndex; TX; TClass]; x_rank := 3; x_float := true; lab_ndim := 2; x_views := 0 |}.
 Definition tr_ex : trace :=
   [DUnits [1 # 3; 0; 9 # 10]%Q; DUnits [1 # 4; 3 # 4; 0]%Q; DBetas (4 # 5) [1 # 2; 1 # 3; 1]%Q;
    DBetas 1 [1 # 5; 1 # 2; 0]%Q; DInts 4 [0; 3; 2]; DInts 6 [5; 0; 3]; DPerm [1; 0; 2]%nat].
@@ -176,14 +176,23 @@ Proof. vm_compute. reflexivity. Qed.
 Example rejections :
   (exists e, collate_batch {| bsz := 3; img_h := 4; img_w := 4; mixup_p := 1; cutmix_p := 0; total_p := 1;
       mixup_alpha := Some 1%Q; cutmix_alpha := None; apply_mode := PerBatch; lamb_mode := PerBatch; shuf := Flip;
-      tokens := [TX; TClass]; x_rank := 3; x_float := true; lab_ndim := 2 |} [] Y_ex [IOther []; IOther []] []
+      tokens := [TX; TClass]; x_rank := 3; x_float := true; lab_ndim := 2; x_views := 0 |} [] Y_ex [IOther []; IOther []] []
       [DUnit 0; DUnit (1 # 2); DBeta 1 (1 # 2)] = Err e /\ e = EAssertFlip) /\
-  (exists e, collate_batch (Build_cfg 2 4 4 1 0 1 (Some 1%Q) None PerBatch PerBatch Roll [TX; TClass] 3 true 1)
+  (exists e, collate_batch (Build_cfg 2 4 4 1 0 1 (Some 1%Q) None PerBatch PerBatch Roll [TX; TClass] 3 true 1 0)
       [] [[0]; [2]]%Q [IOther []; IOther []] [] [] = Err e /\ e = EAssertLabel) /\
-  (exists e, collate_batch (Build_cfg 2 4 4 0 1 1 None (Some 1%Q) PerBatch PerBatch Roll [TX] 2 true 2)
+  (exists e, collate_batch (Build_cfg 2 4 4 0 1 1 None (Some 1%Q) PerBatch PerBatch Roll [TX] 2 true 2 0)
       [(1, 1)] [] [IOther []] [] [DUnit 0; DUnit 0; DBeta 1 (1 # 2)] = Err e /\ e = EUnpack) /\
-  (exists e, collate_batch (Build_cfg 2 4 4 1 0 1 (Some 1%Q) None PerBatch PerBatch Roll [TX] 3 false 2)
+  (exists e, collate_batch (Build_cfg 2 4 4 1 0 1 (Some 1%Q) None PerBatch PerBatch Roll [TX] 3 false 2 0)
       [] [] [IOther []] [] [DUnit 0; DUnit 0; DBeta 1 (1 # 2)] = Err e /\ e = ECast).
+Proof. repeat split; eexists; (split; [vm_compute; reflexivity|reflexivity]). Qed.
+
+(* a multi-view image item (two views per sample) is rejected before any draw, in the single-item mode "x" (where the
+   unrepaired get_item read the list of views as a batch of several items and mixed view 0 only) and in "class x" *)
+Example multi_view_rejected :
+  (exists e, collate_batch (Build_cfg 2 4 4 1 0 1 (Some 1%Q) None PerBatch PerBatch Roll [TX] 3 true 2 2)
+      [] [] [IOther []] [] [DUnit 0; DUnit 0; DBeta 1 (1 # 2)] = Err e /\ e = EMultiView) /\
+  (exists e, collate_batch (Build_cfg 2 4 4 1 0 1 (Some 1%Q) None PerBatch PerBatch Roll [TClass; TX] 3 true 2 3)
+      [] [[0]; [2]]%Q [IOther []; IOther []] [] [] = Err e /\ e = EMultiView).
 Proof. repeat split; eexists; (split; [vm_compute; reflexivity|reflexivity]). Qed.
 
 Example in_domain_example : in_domain c_ex Y_ex.
